@@ -28,6 +28,9 @@ _SNAP = None
 _SKIP = {'_ARG_SPEC_CACHE'}
 
 
+_LOCKED_AT_SNAPSHOT = [False]
+
+
 def snapshot():
   """Records the current value of every module-level store of gin.config."""
   global _SNAP
@@ -35,8 +38,8 @@ def snapshot():
   for k, v in vars(cfg).items():
     if k.startswith('__') or k in _SKIP:
       continue
-    if isinstance(v, bool):
-      snap[k] = ('bool', v)
+    if isinstance(v, bool) or type(v) in (int, float, str, type(None)):
+      snap[k] = ('bool', v)      # plain scalars (flags, counters, generation numbers): restored by assignment
     elif isinstance(v, selector_map.SelectorMap):
       snap[k] = ('smap', copy.deepcopy(v._selector_tree), dict(v._selector_map))
     elif type(v) is dict:
@@ -46,6 +49,7 @@ def snapshot():
     elif type(v) is set:
       snap[k] = ('set', set(v))
   _SNAP = snap
+  _LOCKED_AT_SNAPSHOT[0] = gin.config_is_locked()
   return snap
 
 
@@ -73,6 +77,9 @@ def hard_reset():
       s.clear()
       s.update(rec[1])
   cfg._PARSE_CONTEXTS[:] = [cfg.ParseContext()]
+  if gin.config_is_locked() != _LOCKED_AT_SNAPSHOT[0]:
+    # the lock state is not (or no longer) one of the plain module-level stores: restore it through gin's own setter
+    cfg._set_config_is_locked(_LOCKED_AT_SNAPSHOT[0])
   reset_scope_manager()
   release_owned_locks()
 
@@ -142,7 +149,7 @@ def internal_state():
     return ('obj', type(v).__name__, getattr(v, '__name__', None))
   return (
       canon(cfg._CONFIG), canon(cfg._CONFIG_PROVENANCE), canon(cfg._OPERATIVE_CONFIG),
-      canon(cfg._IMPORTS), cfg._CONFIG_IS_LOCKED, cfg._INTERACTIVE_MODE,
+      canon(cfg._IMPORTS), gin.config_is_locked(), getattr(cfg, '_INTERACTIVE_MODE', None),
       canon(sorted(cfg._SINGLETONS)), canon(sorted(cfg._CONSTANTS._selector_map)),
       canon(cfg._CONSTANTS._selector_tree),
       canon(sorted(cfg._REGISTRY._selector_map)), len(cfg._FINALIZE_HOOKS),
